@@ -94,10 +94,23 @@ def rnd_of(ip, x_e):
   if x_e.sort() == z3.IntSort():
     return x_e
   r = I.RND(x_e)
-  ip.assume(z3.And(z3.ToReal(r) - x_e <= z3.RealVal("1/2"),
-                   x_e - z3.ToReal(r) <= z3.RealVal("1/2")))
+  ip.assume(rnd_axiom_formula(x_e))
   _bridge_log(ip, x_e, r, "rnd")
   return r
+
+
+PRECISE_TIES = [False]     # set per case: model tf.round's half-to-even tie rule (needed by C08 phase0)
+
+
+def rnd_axiom_formula(x_e):
+  """tf.round / np.round / round: nearest integer; with PRECISE_TIES also 'ties to the even integer'
+  (otherwise ties are left unspecified, which is all C01-C03 need)."""
+  r = I.RND(x_e)
+  d = z3.ToReal(r) - x_e
+  half = z3.RealVal("1/2")
+  if PRECISE_TIES[0]:
+    return z3.And(d <= half, -d <= half, z3.Implies(z3.Or(d == half, -d == half), r % 2 == 0))
+  return z3.And(d <= half, -d <= half)
 
 
 def _bridge_log(ip, x_e, r, kind):
@@ -142,6 +155,8 @@ def trunc_int(ip, v):
     return SNum(r, "int")
   if isinstance(v, SStr):
     raise Unsupported("int() of symbolic string")
+  if v is None or isinstance(v, (list, tuple, dict)):
+    raise PyRaise("TypeError", ("int() argument must be a string, a bytes-like object or a real number",))
   raise Unsupported("int() of %r" % (v,))
 
 
@@ -500,6 +515,8 @@ def value_getattr(ip, obj, name):
       return Builtin("set_shape", lambda ip_, *a, **k: None)
     if name == "tolist":
       return Builtin("tolist", lambda ip_: obj)
+    if name == "shape" and isinstance(obj.tag, dict) and "shape" in obj.tag:
+      return shape_of(obj)
     return NotImplemented
   if isinstance(obj, (int, float)):
     if name in ("real", "imag", "is_integer"):
@@ -961,7 +978,9 @@ def _np_array(ip, v, dtype=None, **k):
   if isinstance(v, (list, tuple)):
     return [_np_array(ip, x) for x in v]
   if isinstance(v, SNum):
-    return SNum(v.e, v.pytype if v.pytype == "tensor" else "float", v.grad, {"ndarray": True})
+    tag = dict(v.tag) if isinstance(v.tag, dict) else {}
+    tag["ndarray"] = True
+    return SNum(v.e, v.pytype if v.pytype == "tensor" else "float", v.grad, tag)
   if isinstance(v, (int, float)):
     return float(v) if dtype is None or "float" in str(dtype) else v
   if isinstance(v, Term):
@@ -977,6 +996,17 @@ def _np_mod(ip, a, b):
     import numpy as np
     return float(np.mod(a, b))
   raise Unsupported("np.mod on symbolic values")
+
+
+@model("np.squeeze")
+def _np_squeeze(ip, v, axis=None):
+  if isinstance(v, SNum) and isinstance(v.tag, dict) and "shape" in v.tag:
+    tag = dict(v.tag)
+    tag["shape"] = tuple(d for d in v.tag["shape"] if d != 1)
+    return SNum(v.e, v.pytype, v.grad, tag)
+  if isinstance(v, Term):
+    return Term("np.squeeze", (v,))
+  return v
 
 
 @model("np.isscalar")
